@@ -65,15 +65,23 @@ def draw_scenario(cs, cfg):
     sc["n"] = cs.randint(1, 3, "n")
     sc["valseed"] = cs.draw(1000, "valseed")
     # family: 0 = function-like object (EM / nn.Module), 1 = user LinearOperator
-    sc["family"] = cs.weighted([3, 1], "family")
+    # one scenario in twelve is dedicated to an internal failure the library absorbs: a dense operator (whose
+    # full matrix may BE the caller's tensor) handed to the exact solver, whose LAPACK call fails once
+    sc["linalg_scenario"] = cs.bool("linalg_scenario", 1, 12)
+    sc["family"] = 1 if sc["linalg_scenario"] else cs.weighted([3, 1], "family")
     if sc["family"] == 0:
         # objects holding one tensor under two names get twice the weight: several mechanisms only differ there
-        sc["kind"] = cs.weighted([2 if k in (AC.EMAlias, AC.NNShared, AC.EMAliasFirst, AC.NNSharedFirst) else 1 for k in AC.ALL_KINDS], "kind")
+        sc["kind"] = cs.weighted([2 if k in (AC.EMAlias, AC.NNShared, AC.EMAliasFirst, AC.NNSharedFirst) else 1
+                                  for k in AC.ALL_KINDS + AC.C10_EXTRA_KINDS], "kind")
         sc["fkind"] = ["method", "pf", "sibling", "multisibling", "callable"][cs.weighted([4, 3, 2, 1, 2], "fkind")]
         sc["kind2"] = cs.draw(len(AC.ALL_KINDS), "kind2") if sc["fkind"] == "multisibling" else None
     else:
-        sc["kind"] = cs.weighted([2 if k is AC.LOAlias else 1 for k in AC.LO_KINDS], "lokind")
-        sc["composite"] = cs.weighted([3, 1, 1, 1], "composite")   # 0 plain, 1 A+B, 2 scalar*A, 3 A.matmul(B)
+        if sc["linalg_scenario"]:
+            sc["kind"] = cs.weighted([4 if k is AC.LODense else 1 for k in AC.LO_KINDS], "lokind")
+            sc["composite"] = cs.weighted([6, 1, 1, 1], "composite")
+        else:
+            sc["kind"] = cs.weighted([2 if k is AC.LOAlias else 1 for k in AC.LO_KINDS], "lokind")
+            sc["composite"] = cs.weighted([3, 1, 1, 1], "composite")   # 0 plain, 1 A+B, 2 scalar*A, 3 A.matmul(B)
         sc["n"] = max(sc["n"], 2)
         sc["fkind"] = "linop"
     # a jac operator of one of the object's methods, kept by the caller: itself an EditableModule whose products can
@@ -127,6 +135,12 @@ def draw_functional(cs, sc):
         hermitian = AC.LO_KINDS[sc["kind"]] is not AC.LOWithRmv and sc["composite"] != 3
         if F == "symeig" and not hermitian:
             F = "solve"      # symeig rejects non-Hermitian operators outright
+        if sc.get("linalg_scenario"):
+            spec = {"F": "solve", "method": cs.choice(["exactsolve", "custom_exactsolve"], "lm"),
+                    "E": cs.bool("withE", 1, 3), "bck": cs.choice([None, "cg", "exactsolve"], "bck")}
+            spec["M"] = bool(spec["E"]) and cs.bool("withM", 1, 2)
+            spec["linalg_fault"] = cs.randint(1, 2, "linalg_k")
+            return spec
         spec = {"F": F}
         if F == "solve":
             spec["method"] = cs.choice(["cg", "bicgstab", "gmres", "broyden1", "exactsolve", "custom_exactsolve"], "m")
@@ -243,7 +257,7 @@ def build_env(sc):
     env.n = n
     env.actors = []
     if sc["family"] == 0:
-        a = AC.build_actor(AC.ALL_KINDS[sc["kind"]], vals, sc["rgW"], sc["rgb"])
+        a = AC.build_actor((AC.ALL_KINDS + AC.C10_EXTRA_KINDS)[sc["kind"]], vals, sc["rgW"], sc["rgb"])
         env.actors.append(a)
         if sc["kind2"] is not None:
             env.actors.append(AC.build_actor(AC.ALL_KINDS[sc["kind2"]], vals, sc["rgW"], sc["rgb"], second=True))
@@ -1045,7 +1059,7 @@ def functional_label(sc, opidx):
 
 def kind_label(sc):
     if sc["family"] == 0:
-        return AC.ALL_KINDS[sc["kind"]].__name__
+        return (AC.ALL_KINDS + AC.C10_EXTRA_KINDS)[sc["kind"]].__name__
     return AC.LO_KINDS[sc["kind"]].__name__ + ["", "+B", "*2", "@B"][sc["composite"]]
 
 
